@@ -1184,6 +1184,11 @@ func isLocalLoginDestination(destination string) bool {
 		if destination[i] < 0x20 || destination[i] == 0x7f {
 			return false
 		}
+		// http.Redirect cleans the path, so "/./\\host" would be emitted as
+		// "/\\host": no backslashes at all.
+		if destination[i] == '\\' {
+			return false
+		}
 	}
 	return true
 }
